@@ -242,6 +242,63 @@ def check(facts):
             else:
                 r.fail(key, "backends::find is reachable without the char-boundary check on `start`: an offset inside a UTF-8 sequence "
                             "would be handed to the unchecked matcher", facts.loc(fn))
+    # ---- ENTRY: every entry point hands text / start / the regex's unicode flag on unchanged --------------
+    def param_root(b, op):
+        """(param local, field path) an operand is a plain copy/reborrow of, else (None, None)."""
+        if op.get("k") not in ("copy", "move"):
+            return None, None
+        rt, pr = b.root_of(op["pl"]["l"])
+        pr = list(op["pl"]["p"]) and pr + [x for x in op["pl"]["p"]] or pr
+        if not (1 <= rt <= b.argc):
+            return None, None
+        return rt, [x["f"] for x in pr if isinstance(x, dict) and "f" in x]
+    entries = [n for n in facts.body_names() if n.startswith("api::Regex::find_from")]
+    n_entry = 0
+    for fn in sorted(entries):
+        b = facts.body(fn)
+        pname = {b.local_name(l): l for l in range(1, b.argc + 1)}
+        for bb, t in b.iter_calls():
+            cal = t.get("callee") or ""
+            want = None
+            if cal == "api::backends::find":
+                want = [(1, "text"), (2, "start")]
+            elif cal.startswith("exec::Matches::<") and cal.endswith("::new"):
+                want = [(1, "start")]
+            if not want:
+                continue
+            for ai, pn in want:
+                n_entry += 1
+                rt, fields = param_root(b, t["args"][ai])
+                key = "%s passes `%s` to %s unchanged" % (fn, pn, cal.split("::")[-2].split("<")[0] + "::" + cal.split("::")[-1] if "Matches" in cal else cal)
+                if rt is not None and rt == pname.get(pn) and not fields:
+                    r.ok(key)
+                else:
+                    r.fail(key, "%s does not hand its `%s` argument on unchanged (clamped, sliced or recomputed): a start beyond the end must "
+                                "yield no match, and text before `start` must stay visible to ^, \\b and lookbehind — sibling entry points "
+                                "would disagree" % (fn, pn), facts.loc(fn, t.get("line")))
+    r.floor("entry_arguments", n_entry, 3)
+    n_flag = 0
+    for fn in sorted(facts.body_names()):
+        b = facts.body(fn)
+        for bb, t in b.iter_calls():
+            cal = t.get("callee") or ""
+            if not (cal.startswith("indexing::") and "Input" in cal and cal.endswith("::new")) or len(t["args"]) < 2:
+                continue
+            n_flag += 1
+            key = "%s builds %s with the regex's unicode flag" % (fn, cal.split("::")[1].split("<")[0])
+            a = t["args"][1]
+            fields = []
+            if a.get("k") in ("copy", "move"):
+                rt, pr = b.root_of(a["pl"]["l"])
+                fields = [x["f"] for x in pr if isinstance(x, dict) and "f" in x]
+            if fields[-2:] == ["flags", "unicode"] or (fields == ["unicode"] and fn.endswith("::subinput") and "indexing::" in fn):
+                r.ok(key)  # subinput copies the parent indexer's own flag
+            else:
+                r.fail(key, "the input indexer is not built with `<regex>.flags.unicode` (got %s): its fold_equals then compares icase "
+                            "backreferences with the wrong case mapping for this regex, and only through this entry point" % (
+                                "a constant" if a.get("k") == "const" else (fields or "a computed value")), facts.loc(fn, t.get("line")))
+    r.floor("indexer_constructions", n_flag, 4)
+
     fn = "api::backends::find"
     if facts.has_body(fn):
         b = facts.body(fn)
